@@ -144,12 +144,21 @@ var c20CoinDenoms = []string{"ucoin0", "ibc/C4CFF46FD6DE35CA4CF4CE031E643C8FDC9B
 
 const c20ExtraEpoch = "Quarter Hour/15-Min" // identifiers are free-form strings
 
-func c20Genesis(emptyWhitelist bool) app.GenesisState {
+// a NOT-YET-STARTED, FUTURE-DATED epoch definition in the chain's own genesis (start_time = genesis time + offset):
+// it is exported unchanged until its start date, and imports happen before / at / after that date
+const c20SchedEpoch = "Scheduled/Launch-Week"
+
+var c20SchedOffsets = []time.Duration{0, time.Hour, 3 * 24 * time.Hour, 30 * 24 * time.Hour, 400 * 24 * time.Hour}
+
+func c20Genesis(emptyWhitelist bool, sched int) app.GenesisState {
 	enc := app.MakeEncodingConfig()
 	gen := app.GenesisState{}
 	eg := epochstypes.DefaultGenesisFromTime(GenesisTime)
 	eg.Epochs = append(eg.Epochs, epochstypes.EpochInfo{Identifier: c20ExtraEpoch, StartTime: GenesisTime, Duration: 15 * time.Minute,
 		CurrentEpochStartTime: GenesisTime})
+	if off := c20SchedOffsets[abs(sched)%len(c20SchedOffsets)]; off > 0 {
+		eg.Epochs = append(eg.Epochs, epochstypes.EpochInfo{Identifier: c20SchedEpoch, StartTime: GenesisTime.Add(off), Duration: 7 * 24 * time.Hour})
+	}
 	gen[epochstypes.ModuleName] = enc.Codec.MustMarshalJSON(eg)
 	og := oracletypes.DefaultGenesisState()
 	og.Params.VotePeriod = c20VotePeriod
@@ -163,8 +172,8 @@ func c20Genesis(emptyWhitelist bool) app.GenesisState {
 	return gen
 }
 
-func newC20World(t *testing.T, emptyWhitelist bool) *c20World {
-	w := &c20World{t: t, c: NewChain(c20Genesis(emptyWhitelist)), prevotes: map[int]c20Prevote{}, root: testutil.ADDR_SUDO_ROOT}
+func newC20World(t *testing.T, emptyWhitelist bool, sched int) *c20World {
+	w := &c20World{t: t, c: NewChain(c20Genesis(emptyWhitelist, sched)), prevotes: map[int]c20Prevote{}, root: testutil.ADDR_SUDO_ROOT}
 	c := w.c
 	c.BeginBlock(5 * time.Second)
 	for i := 0; i < 3; i++ {
